@@ -6,6 +6,7 @@ import (
 	"fmt"
 	"os"
 	"sort"
+	"syscall"
 
 	_ "verif/checks"
 	"verif/vlib"
@@ -23,6 +24,13 @@ func main() {
 		if !ok {
 			fmt.Fprintf(os.Stderr, "unknown worker %q\n", os.Args[2])
 			os.Exit(2)
+		}
+		// safety net (not an oracle): a worker whose server code runs away (a seeded change can make DVID walk a cyclic
+		// DAG for ever) dies at 32 GiB of address space instead of exhausting the machine; the race-detector build needs
+		// terabytes of shadow address space and is exempted by its caller
+		if os.Getenv("VERIF_NO_ASLIMIT") == "" {
+			lim := syscall.Rlimit{Cur: 32 << 30, Max: 32 << 30}
+			syscall.Setrlimit(syscall.RLIMIT_AS, &lim)
 		}
 		os.Exit(w(os.Args[3:]))
 	}
